@@ -292,7 +292,7 @@ pub struct Delims {
 }
 
 pub fn delim_family() -> Vec<Delims> {
-    vec![
+    let v = vec![
         Delims { name: "erb-prefix-sharing", block: ("<%", "%>"), var: ("<%=", "%>"), comment: ("<%#", "%>"), line_stmt: None, line_comment: None },
         Delims { name: "nested-prefix", block: ("<<", ">>"), var: ("<<<", ">>>"), comment: ("<<#", "#>>"), line_stmt: None, line_comment: None },
         Delims { name: "single-brace", block: ("{%", "%}"), var: ("{", "}"), comment: ("{#", "#}"), line_stmt: None, line_comment: None },
@@ -303,7 +303,26 @@ pub fn delim_family() -> Vec<Delims> {
         Delims { name: "erb+line", block: ("<%", "%>"), var: ("<%=", "%>"), comment: ("<%#", "%>"), line_stmt: Some("%%"), line_comment: Some("%#") },
         Delims { name: "long", block: ("<!--{", "}-->"), var: ("${", "}"), comment: ("<!--#", "#-->"), line_stmt: None, line_comment: None },
         Delims { name: "php", block: ("<?", "?>"), var: ("<?=", "?>"), comment: ("<!--", "-->"), line_stmt: None, line_comment: None },
-    ]
+    ];
+    // line-statement / line-comment prefixes that overlap with the tag delimiters in every way the
+    // start-marker search can confuse: prefix is a suffix of a delimiter, a prefix of one, equal to a
+    // character inside one, or shares its first character with the comment prefix
+    let mut v = v;
+    let bases: [(&'static str, (&'static str, &'static str), (&'static str, &'static str), (&'static str, &'static str)); 5] = [
+        ("default", ("{%", "%}"), ("{{", "}}"), ("{#", "#}")),
+        ("erb", ("<%", "%>"), ("<%=", "%>"), ("<%#", "%>")),
+        ("nested", ("<<", ">>"), ("<<<", ">>>"), ("<<#", "#>>")),
+        ("square", ("[%", "%]"), ("[[", "]]"), ("[#", "#]")),
+        ("brace", ("{%", "%}"), ("{", "}"), ("{#", "#}")),
+    ];
+    let prefixes: [(&'static str, &'static str); 6] = [("%", "%#"), ("#", "##"), ("%%", "%#"), ("<", "<#"), ("//", "///"), ("=", "=="),];
+    for (bname, block, var, comment) in bases {
+        for (ls, lc) in prefixes {
+            let name: &'static str = Box::leak(format!("{}+ls[{}]lc[{}]", bname, ls, lc).into_boxed_str());
+            v.push(Delims { name, block, var, comment, line_stmt: Some(ls), line_comment: Some(lc) });
+        }
+    }
+    v
 }
 
 pub fn syntax_of(d: &Delims) -> Result<SyntaxConfig, minijinja::Error> {
@@ -449,7 +468,7 @@ fn check_delims(opts: gen::Opts, stride: u64, acc: &Acc) {
                     }
                 }
                 // default-looking delimiters embedded as text come out verbatim under the custom set
-                if ci == 0 && !["single-brace", "default+line"].contains(&d.name) {
+                if ci == 0 && !["single-brace", "default+line"].contains(&d.name) && !d.name.starts_with("default+") && !d.name.starts_with("brace+") {
                     let lookalike = "{{ v }}{% if %}{# c #}{";
                     let src2 = format!("{}{}", lookalike, src);
                     l.evals += 1;
@@ -468,7 +487,7 @@ fn check_delims(opts: gen::Opts, stride: u64, acc: &Acc) {
       }
     });
     // line statements / comments behave like the tag occupying the whole line
-    let line_sets: Vec<&(Delims, Environment<'static>)> = envs.iter().filter(|(d, _)| d.line_stmt.is_some()).collect();
+    let line_sets: Vec<&(Delims, Environment<'static>)> = envs.iter().filter(|(d, _)| d.line_stmt.is_some() && !d.name.contains("+ls[")).collect();
     for (d, env) in line_sets {
         let ls = d.line_stmt.unwrap();
         let lc = d.line_comment.unwrap();
